@@ -392,7 +392,10 @@ public:
                        const constant_domain_t &inv) override {
     crab::CrabStats::count(domain_name() + ".count.backward_assign");
     crab::ScopedCrabStats __st__(domain_name() + ".backward_assign");
-    // TODO
+    // No inverse operations are implemented: x can be anything before
+    // the assignment.
+    this->operator-=(x);
+    *this = *this & inv;
   }
 
   void backward_apply(crab::domains::arith_operation_t op, const variable_t &x,
@@ -400,7 +403,10 @@ public:
                       const constant_domain_t &inv) override {
     crab::CrabStats::count(domain_name() + ".count.backward_apply");
     crab::ScopedCrabStats __st__(domain_name() + ".backward_apply");
-    // TODO
+    // No inverse operations are implemented: x can be anything before
+    // the assignment.
+    this->operator-=(x);
+    *this = *this & inv;
   }
 
   void backward_apply(crab::domains::arith_operation_t op, const variable_t &x,
@@ -408,7 +414,10 @@ public:
                       const constant_domain_t &inv) override {
     crab::CrabStats::count(domain_name() + ".count.backward_apply");
     crab::ScopedCrabStats __st__(domain_name() + ".backward_apply");
-    // TODO
+    // No inverse operations are implemented: x can be anything before
+    // the assignment.
+    this->operator-=(x);
+    *this = *this & inv;
   }
 
   // cast operations
